@@ -131,6 +131,9 @@ where
         let r = guard(|| match op {
             'n' => it_entry_sym(it.next().map(&f)),
             'b' => it_entry_sym(it.next_back().map(&f)),
+            'j' => it_entry_sym(it.nth(1).map(&f)),
+            'k' => it_entry_sym(it.nth(3).map(&f)),
+            'B' => it_entry_sym(it.nth_back(2).map(&f)),
             'l' => json!([2, res_val(it.len())]),
             _ => json!([NA]),
         });
@@ -154,6 +157,8 @@ where
     for op in ops.chars() {
         let r = guard(|| match op {
             'n' => it_entry_int(it.next().map(&f)),
+            'j' => it_entry_int(it.nth(1).map(&f)),
+            'k' => it_entry_int(it.nth(3).map(&f)),
             'l' => match len {
                 Some(l) => json!([2, res_val(l(&it))]),
                 None => json!([NA]),
@@ -366,6 +371,11 @@ where
                 }
                 "from_vec" => $alias::<T>::from(v),
                 "collect" => v.into_iter().collect(),
+                // an iterator whose upper size hint (2n) exceeds what it yields (n)
+                "collect_filter" => {
+                    let n = v.len();
+                    (0..2 * n).filter(|i| i % 2 == 0).map(|i| v[i / 2]).collect()
+                }
                 _ => return None,
             };
             Some(Box::new(o))
@@ -633,6 +643,24 @@ pub fn make_quad(kind: &str, ty: &str, path: &str, vals: Vec<i128>) -> Option<Bo
         ("QV", "collect") => Some(Box::new(for_int_ty!(ty, vals, |it| it.collect::<QVector>()))),
         ("RSQ256", "collect") => Some(Box::new(for_int_ty!(ty, vals, |it| it.collect::<RSQVector256>()))),
         ("RSQ512", "collect") => Some(Box::new(for_int_ty!(ty, vals, |it| it.collect::<RSQVector512>()))),
+        ("QV", "collect_filter") => Some(Box::new(for_int_ty!(ty, vals, |it| {
+            let w: Vec<_> = it.collect();
+            (0..2 * w.len()).filter(|i| i % 2 == 0).map(|i| w[i / 2]).collect::<QVector>()
+        }))),
+        ("RSQ256", "collect_filter") => Some(Box::new(for_int_ty!(ty, vals, |it| {
+            let w: Vec<_> = it.collect();
+            (0..2 * w.len()).filter(|i| i % 2 == 0).map(|i| w[i / 2]).collect::<RSQVector256>()
+        }))),
+        ("RSQ512", "collect_filter") => Some(Box::new(for_int_ty!(ty, vals, |it| {
+            let w: Vec<_> = it.collect();
+            (0..2 * w.len()).filter(|i| i % 2 == 0).map(|i| w[i / 2]).collect::<RSQVector512>()
+        }))),
+        ("QV", "qb_extend_filter") => Some(Box::new(for_int_ty!(ty, vals, |it| {
+            let w: Vec<_> = it.collect();
+            let mut qb = QVectorBuilder::new();
+            qb.extend((0..2 * w.len()).filter(|i| i % 2 == 0).map(|i| w[i / 2]));
+            qb.build()
+        }))),
         ("RSQ256", "from_qv") => {
             let qv = for_int_ty!(ty, vals, |it| it.collect::<QVector>());
             Some(Box::new(RSQVector256::from(qv)))
